@@ -12,9 +12,10 @@ from gen import c01_cmp as CMP
 
 ID = "C01"
 PROPS = ["IsoVerif/Props/C01.lean", "IsoVerif/Props/C01Path.lean", "IsoVerif/Props/C01Far.lean",
-         "IsoVerif/Props/C01Compare.lean", "IsoVerif/Props/C01Converse.lean", "IsoVerif/Props/C01Polya.lean"]
+         "IsoVerif/Props/C01Compare.lean", "IsoVerif/Props/C01Converse.lean", "IsoVerif/Props/C01Polya.lean",
+         "IsoVerif/Props/C01Follow.lean"]
 TARGETS = ["IsoVerif.Props.C01", "IsoVerif.Props.C01Path", "IsoVerif.Props.C01Far", "IsoVerif.Props.C01Compare",
-           "IsoVerif.Props.C01Converse", "IsoVerif.Props.C01Polya"]
+           "IsoVerif.Props.C01Converse", "IsoVerif.Props.C01Polya", "IsoVerif.Props.C01Follow"]
 GEN_DEPS = ["Prims", "Enums", "EventClasses", "Strategies", "ComparatorTables"]
 LEVEL = "proof"
 RULE = ("seeded random annotations (1-3 overlapping / nested / antisense genes, 1-6 isoforms each: exon skipping, alt 5'/3' "
@@ -35,7 +36,10 @@ TRUSTED = ["Gen/EventClasses.lean, Gen/Enums.lean, Gen/Strategies.lean, Gen/Comp
            "modelled comparator (`assign_m`)",
            "harness/gen/c01_cmp.py: RealComparator (builds the comparator as LongReadAssigner.__init__ does; the constructor "
            "expression is checked against the source on every run), py_tolerance / py_chains_wf (the oracle's position-only "
-           "form of the theorems' hypotheses, compared with the Lean predicates through driver op C01.tolerance)"]
+           "form of the theorems' hypotheses, compared with the Lean predicates through driver op C01.tolerance)",
+           "harness/gen/c01_annot.py: follow_hyp / follows_exact (position-only Python form of Lean FollowHyp / FollowsExact of "
+           "Props/C01Follow.lean; tied to the Lean form only through the theorem itself: a model answer outside the consistent / "
+           "fallback path for a read the Python predicate accepts is reported as op follow_hyp_model)"]
 ASSUMPTIONS = ["CPython int semantics = Lean Int",
                "isoform ids are zero-padded so that their string order is the list order (the model uses list positions)",
                "nucleotide scores / penalty scores are exact rationals in the model; a case whose float decision in the "
@@ -318,9 +322,13 @@ def gen_reads(ctx, isoforms, params, scale, n):
         if r < 0.45:
             kind = "follow"
             b = A.follow_read(rng, t["exons"], params.delta, end_slack=rng.choice([0, 0, 2, int(80 * scale)]))
-        elif r < 0.55:
+        elif r < 0.52:
             kind = "follow_exact"
             b = A.follow_read(rng, t["exons"], 0, jitter=False)
+        elif r < 0.62:
+            # forward clause (Props/C01Follow.lean): exact sub-chains whose ends sit at exon borders / at the thresholds
+            kind = "follow_border"
+            b = A.follow_border_read(rng, t["exons"], params.minimal_exon_overlap)
         elif r < 0.85:
             kind = "far"
             b = A.far_read(rng, t["exons"], scale)
@@ -332,7 +340,10 @@ def gen_reads(ctx, isoforms, params, scale, n):
             t = None
         if b is None:
             continue
-        reads.append((kind, [list(x) for x in b], list(A.rand_polya(rng, b, t, scale))))
+        pa = list(A.rand_polya(rng, b, t, scale))
+        if kind == "follow_border" and rng.random() < 0.8:
+            pa = [-1, -1, -1, -1]
+        reads.append((kind, [list(x) for x in b], pa))
     return reads
 
 
@@ -447,7 +458,8 @@ def run_world(ctx, tiny, n_reads, records):
             except ERRS as ex:
                 records.append(("profiles", base, {"error": "error", "exc": type(ex).__name__}, None))
                 continue
-            if ctx.rng.random() < 0.15:
+            fdom = follow_domain(isoforms, params, blocks, polya)
+            if ctx.rng.random() < 0.15 or (fdom and ctx.rng.random() < 0.5):
                 records.append(("profiles", base, profiles_json(prof), None))
             cj = built.compare_all(prof)
             try:
@@ -455,6 +467,8 @@ def run_world(ctx, tiny, n_reads, records):
             except ERRS as ex:
                 out = {"error": "error", "exc": type(ex).__name__}
             kw = dict(base, cj=cj)
+            if fdom:
+                check_follow_clause(ctx, built, isoforms, params, blocks, polya, prof, out, fdom, len(records))
             records.append(("assign", kw, out, (isoforms, params, kind)))
             # the same assignment with the MODELLED comparator (no cj input), and the comparator itself per isoform
             records.append(("assign_m", dict(base, cparams=cq), out, (isoforms, params, kind)))
@@ -465,6 +479,63 @@ def run_world(ctx, tiny, n_reads, records):
                                    prof.read_intron_profile.read_features, (rf[0][0], rf[-1][1]),
                                    built.gene.all_isoforms_introns[tid], built.gene.transcript_region(tid))
                     records.append(("compare", ckw, cj[i] if cj[i] is not None else {"error": "error"}, (params,)))
+
+
+def follow_domain(isoforms, params, blocks, polya):
+    """indices of the isoforms T for which the read meets `FollowHyp` (Lean: Lemmas/C01Follow.lean; Python: gen/c01_annot.py)"""
+    if polya[0] != -1 or polya[1] != -1 or len(blocks) == 0:
+        return []
+    return [i for i in range(len(isoforms)) if A.follow_hyp(isoforms, params, i, [tuple(b) for b in blocks], polya)]
+
+
+FOLLOW_INDEX = {}       # record index of an `assign` case -> isoform indices T with FollowHyp (checked against the model's path)
+
+
+def check_follow_clause(ctx, built, isoforms, params, blocks, polya, prof, out, tis, rec_index):
+    """the conclusions of `follow_exact_profiles` / `follow_exact_dispatch` / `follow_exact_tests` evaluated on the REAL
+    objects for a read inside the theorems' domain; a miss is recorded as a disagreement (model := what the theorem says)"""
+    import src.common as C
+    FOLLOW_INDEX[rec_index] = tis
+    ctx.count("follow_clause:reads")
+    ip, sp = prof.read_intron_profile, prof.read_split_exon_profile
+    gi = built.gene
+    trace = list(built.trace)
+    for ti in tis:
+        tid = built.ids[ti]
+        ctx.count("follow_clause:cases")
+        obs = {
+            "intron_read_all1": all(v == 1 for v in ip.read_profile),
+            "split_read_all1": all(v == 1 for v in sp.read_profile),
+            "intron_equal_in_range": bool(C.equal_profiles_in_range(gi.intron_profiles.profiles[tid], ip.gene_profile,
+                                                                    ip.gene_profile_range)),
+            "split_equal_in_range": bool(C.equal_profiles_in_range(gi.split_exon_profiles.profiles[tid], sp.gene_profile,
+                                                                   sp.gene_profile_range)),
+            "split_overlap": bool(C.has_overlapping_features(
+                gi.split_exon_profiles.profiles[tid], sp.gene_profile,
+                profile_range=C.overlap_intervals(sp.gene_profile_range, gi.split_exon_profiles.profile_ranges[tid]))),
+            "dispatch_consistent": (not vlib.is_err(out)) and out.get("path") in ("consistent", "fallback"),
+        }
+        if len(blocks) == 1:
+            ctx.count("follow_clause:mono_block")
+        if any(b[0] == e[0] or b[1] == e[1] for b in (blocks[0], blocks[-1]) for e in isoforms[ti]["exons"]):
+            ctx.count("follow_clause:end_at_exon_border")
+        if any(e[1] - e[0] + 1 <= max(1, params.delta) for t in isoforms for e in t["exons"]):
+            ctx.count("follow_clause:micro_exon_in_annotation")
+        if not all(obs.values()):
+            if sum(1 for d in ctx.disagreements if d.get("op") == "follow_clause") >= 40:
+                ctx.count("follow_clause:misses_not_recorded")
+                continue
+            ctx.disagree("follow_clause", {"isoforms": isoforms_json(isoforms), "params": params_json(params),
+                                           "blocks": blocks, "polya": polya, "T": ti},
+                         {k: True for k in obs}, dict(obs, trace=trace))
+        elif not vlib.is_err(out) and out.get("path") == "consistent":
+            ctx.count("follow_clause:consistent_path")
+        elif not vlib.is_err(out):
+            ctx.count("follow_clause:fallback")
+            # the part of `follow_exact_assigned_partial` that is NOT proved: no fall-back without any polyA position
+            # when min_abs_exon_overlap <= minor_exon_extension (counted, never flagged)
+            if list(polya) == [-1, -1, -1, -1] and params.min_abs_exon_overlap <= params.minor_exon_extension:
+                ctx.count("follow_clause:fallback_without_polya_and_overlap_le_extension")
 
 
 def diagnose_float(ctx, kw, extra):
@@ -489,8 +560,13 @@ def diagnose_float(ctx, kw, extra):
     return penalty_float_sensitive(built, prof, cj)
 
 
+def FOLLOW_INDEX_OF(records):
+    return FOLLOW_INDEX if getattr(FOLLOW_INDEX_OF, "records_id", None) == id(records) else {}
+
+
 def correspondence(ctx):
     quick = ctx.tier == "quick"
+    FOLLOW_INDEX.clear()
     # 1. generated tables against the Python objects they were extracted from
     tcases = table_cases()
     ctx.diff_batch("C01", tcases, impl_table)
@@ -501,6 +577,7 @@ def correspondence(ctx):
     correspondence_compare(ctx)
     # 2. gene model, read profiles, assignment
     records = []
+    FOLLOW_INDEX_OF.records_id = id(records)
     n_worlds = (220, 140) if quick else (3000, 1800)
     for _ in range(n_worlds[0]):
         run_world(ctx, False, 9 if quick else 12, records)
@@ -508,7 +585,12 @@ def correspondence(ctx):
         run_world(ctx, True, 10 if quick else 14, records)
     lines = [vlib.req("C01." + op, **kw) for op, kw, _, _ in records]
     outs = ctx.driver.run(lines)
-    for (op, kw, io, extra), mo in zip(records, outs):
+    for ri, ((op, kw, io, extra), mo) in enumerate(zip(records, outs)):
+        if ri in FOLLOW_INDEX_OF(records) and op == "assign" and isinstance(mo, dict) and not vlib.is_err(mo) \
+                and "driver_error" not in mo and mo.get("path") not in ("consistent", "fallback"):
+            # `follow_exact_dispatch` says the MODEL dispatches these reads to match_consistent: the Python form of
+            # FollowHyp (gen/c01_annot.py follow_hyp) and the Lean one differ
+            ctx.disagree("follow_hyp_model", slim(kw), {"path": "consistent|fallback"}, {"path": mo.get("path")})
         ctx.evaluations += 1
         ctx.count("op:" + op)
         if isinstance(mo, dict) and "driver_error" in mo:
